@@ -26,6 +26,9 @@ import (
 	"flag"
 	"fmt"
 	"os"
+	"path/filepath"
+	"reflect"
+	"regexp"
 	"runtime"
 	"runtime/debug"
 	"runtime/pprof"
@@ -42,6 +45,7 @@ import (
 	meta_v1 "k8s.io/apimachinery/pkg/apis/meta/v1"
 	"k8s.io/apimachinery/pkg/types"
 	"k8s.io/apimachinery/pkg/util/intstr"
+	k8syaml "k8s.io/apimachinery/pkg/util/yaml"
 )
 
 // ---------------------------------------------------------------- cases
@@ -68,8 +72,11 @@ type Case struct {
 	Others   int             `json:"others,omitempty"` // how many settings of the remaining flags were run
 	Kind     string          `json:"kind,omitempty"`   // random stream
 	Flags    int             `json:"flags,omitempty"`
+	Ctx      int             `json:"ctx,omitempty"`
 	Object   json.RawMessage `json:"object,omitempty"`
 	Admitted *bool           `json:"admitted,omitempty"`
+	Accepted *bool           `json:"accepted,omitempty"` // random stream: the validator found no error
+	Why      string          `json:"why,omitempty"`      // random stream: first validation error (diagnostic only)
 	Error    string          `json:"error,omitempty"`
 }
 
@@ -353,11 +360,17 @@ const ingKey = "default/z-new"
 // result is what is reported.  The thorough tier and replays always use fresh controllers.
 type pool map[[3]int]*k8s.VerifC17
 
-func (p pool) get(f, ctx int, viaSync bool) *k8s.VerifC17 {
+// priorPanic remembers, per goroutine-free global, nothing: a panic while the prior state is
+// being stored is returned to the caller, which reports it against the scenario.
+func safePopulate(c *k8s.VerifC17, ctx int, viaSync bool) (string, string) {
+	return guard(func() { populate(c, ctx, viaSync) })
+}
+
+func (p pool) get(f, ctx int, viaSync bool) (*k8s.VerifC17, string, string) {
 	if p == nil {
 		c := newCtl(f)
-		populate(c, ctx, viaSync)
-		return c
+		m, s := safePopulate(c, ctx, viaSync)
+		return c, m, s
 	}
 	v := 0
 	if viaSync {
@@ -365,12 +378,14 @@ func (p pool) get(f, ctx int, viaSync bool) *k8s.VerifC17 {
 	}
 	k := [3]int{f, ctx, v}
 	if c, ok := p[k]; ok {
-		return c
+		return c, "", ""
 	}
 	c := newCtl(f)
-	populate(c, ctx, viaSync)
+	if m, s := safePopulate(c, ctx, viaSync); m != "" {
+		return c, m, s
+	}
 	p[k] = c
-	return c
+	return c, "", ""
 }
 
 func (p pool) drop(f, ctx int, viaSync bool) {
@@ -393,7 +408,14 @@ func runIngOnce(p pool, ing *networking.Ingress, f int, ctx int, combo string, p
 		out[stage] = '2'
 		mine = append(mine, PanicInfo{Combo: combo, Stage: name, Msg: msg, Site: site})
 	}
-	c := p.get(f, ctx, false)
+	c, pm, ps := p.get(f, ctx, false)
+	if pm != "" { // storing the prior state (valid, admissible objects) panicked
+		for st := range out {
+			out[st] = '2'
+		}
+		*panics = append(*panics, PanicInfo{Combo: combo, Stage: "prior-state", Msg: pm, Site: ps})
+		return string(out)
+	}
 	// validator alone
 	var nerr int
 	if m, s := guard(func() { nerr = c.ValidateIngress(ing.DeepCopy()) }); m != "" {
@@ -423,9 +445,11 @@ func runIngOnce(p pool, ing *networking.Ingress, f int, ctx int, combo string, p
 		}
 	}
 	// the worker's own path: add, then remove
-	c2 := p.get(f, ctx, true)
+	c2, pm2, ps2 := p.get(f, ctx, true)
 	obj2 := ing.DeepCopy()
-	if m, s := guard(func() { _ = c2.Sync(obj2, false); _ = c2.Sync(obj2, true) }); m != "" {
+	if pm2 != "" {
+		note(4, "prior-state", pm2, ps2)
+	} else if m, s := guard(func() { _ = c2.Sync(obj2, false); _ = c2.Sync(obj2, true) }); m != "" {
 		note(4, "sync", m, s)
 	}
 	if len(mine) > 0 && p != nil {
@@ -486,6 +510,10 @@ func runIngShape(p pool, id int, d string, thorough bool) Case {
 	}
 	if len(cs.Panics) > 6 {
 		cs.Panics = cs.Panics[:6]
+	}
+	if len(cs.Panics) > 0 { // the panicking object itself, for the replay file
+		cs.Kind = "Ingress"
+		cs.Object, _ = json.Marshal(ing)
 	}
 	return cs
 }
@@ -1184,13 +1212,15 @@ func deepCopy(o interface{}) interface{} {
 	return o
 }
 
-func crdCtl(fam string, f, ctx int, viaSync bool) *k8s.VerifC17 {
+func crdCtl(fam string, f, ctx int, viaSync bool) (*k8s.VerifC17, string, string) {
 	c := newCtl(f)
 	fillSecrets(c)
-	for _, o := range crdPrior(fam, ctx) {
-		store(c, o, viaSync)
-	}
-	return c
+	m, s := guard(func() {
+		for _, o := range crdPrior(fam, ctx) {
+			store(c, o, viaSync)
+		}
+	})
+	return c, m, s
 }
 
 // runCRDOnce: validate, store, extend+generate, delete, sync for one object of a CRD family
@@ -1202,7 +1232,14 @@ func runCRDOnce(fam string, obj interface{}, f, ctx int, combo string, panics *[
 		out[stage] = '2'
 		*panics = append(*panics, PanicInfo{Combo: combo, Stage: name, Msg: msg, Site: site})
 	}
-	c := crdCtl(fam, f, ctx, false)
+	c, pm, ps := crdCtl(fam, f, ctx, false)
+	if pm != "" { // storing the prior state (valid, admissible objects) panicked
+		for st := range out {
+			out[st] = '2'
+		}
+		*panics = append(*panics, PanicInfo{Combo: combo, Stage: "prior-state", Msg: pm, Site: ps})
+		return string(out)
+	}
 	syncStage := spec.group - 1
 	if fam == "pol" {
 		p := deepCopy(obj).(*conf_v1.Policy)
@@ -1283,9 +1320,11 @@ func runCRDOnce(fam string, obj interface{}, f, ctx int, combo string, panics *[
 			}
 		}
 	}
-	c2 := crdCtl(fam, f, ctx, true)
+	c2, pm2, ps2 := crdCtl(fam, f, ctx, true)
 	o3 := deepCopy(obj)
-	if m, s := guard(func() { _ = c2.Sync(o3, false); _ = c2.Sync(o3, true) }); m != "" {
+	if pm2 != "" {
+		note(syncStage, "prior-state", pm2, ps2)
+	} else if m, s := guard(func() { _ = c2.Sync(o3, false); _ = c2.Sync(o3, true) }); m != "" {
 		note(syncStage, "sync", m, s)
 	}
 	return string(out)
@@ -1327,6 +1366,9 @@ func runCRDShape(p pool, fam string, id int, d string, thorough bool) Case {
 	}
 	if len(cs.Panics) > 6 {
 		cs.Panics = cs.Panics[:6]
+	}
+	if len(cs.Panics) > 0 { // the panicking object itself, for the replay file
+		cs.Object, _ = json.Marshal(obj)
 	}
 	return cs
 }
@@ -1415,9 +1457,1326 @@ func allCRDDescrs(fam string) []string {
 	return out
 }
 
-// ---------------------------------------------------------------- admissibility (stub)
+// ---------------------------------------------------------------- admissibility
 
-func admitted(obj interface{}) bool { return true }
+// The structural-schema validator of k8s.io/apiextensions-apiserver cannot be compiled offline
+// (its dependency github.com/google/cel-go is not in the module cache, and importing an indirect
+// dependency would rewrite /repo/go.mod), so the published schemas config/crd/bases/*.yaml are read
+// with k8s.io/apimachinery/pkg/util/yaml and interpreted by the small validator below.  It knows
+// the keywords the NGINX schemas use (type, properties, items, additionalProperties, required,
+// pattern, enum, minimum, maximum, nullable, format, description) and refuses any other keyword,
+// so a schema change cannot silently go unnoticed.  As in the API server, null values of object
+// properties are pruned before validation; null array items are type errors.
+var (
+	schemaOnce sync.Once
+	schemas    map[string]map[string]interface{}
+	schemaErr  error
+)
 
-func runRandom(id int, r *vh.Rng) Case { return Case{Fam: "rnd", ID: id} }
-func replayRandom(c Case) Case        { return c }
+func loadSchemas() {
+	schemas = map[string]map[string]interface{}{}
+	files, err := filepath.Glob(filepath.Join(repoRoot, "config", "crd", "bases", "k8s.nginx.org_*.yaml"))
+	if err != nil || len(files) == 0 {
+		schemaErr = fmt.Errorf("no CRD files under %s/config/crd/bases: %v", repoRoot, err)
+		return
+	}
+	for _, f := range files {
+		b, err := os.ReadFile(f)
+		if err != nil {
+			schemaErr = err
+			return
+		}
+		j, err := k8syaml.ToJSON(b)
+		if err != nil {
+			schemaErr = fmt.Errorf("%s: %v", f, err)
+			return
+		}
+		var crd struct {
+			Spec struct {
+				Names    struct{ Kind string } `json:"names"`
+				Versions []struct {
+					Name   string `json:"name"`
+					Schema struct {
+						OpenAPIV3Schema map[string]interface{} `json:"openAPIV3Schema"`
+					} `json:"schema"`
+				} `json:"versions"`
+			} `json:"spec"`
+		}
+		if err := json.Unmarshal(j, &crd); err != nil {
+			schemaErr = fmt.Errorf("%s: %v", f, err)
+			return
+		}
+		for _, v := range crd.Spec.Versions {
+			if v.Name == "v1" {
+				schemas[crd.Spec.Names.Kind] = v.Schema.OpenAPIV3Schema
+			}
+		}
+	}
+	for _, k := range []string{"VirtualServer", "VirtualServerRoute", "TransportServer", "Policy", "GlobalConfiguration"} {
+		if schemas[k] == nil {
+			schemaErr = fmt.Errorf("no v1 schema for kind %s in %s/config/crd/bases", k, repoRoot)
+		}
+	}
+}
+
+func schemaCheck(sc map[string]interface{}, v interface{}, path string, errs *[]string) {
+	for k := range sc {
+		switch k {
+		case "type", "properties", "items", "additionalProperties", "required", "pattern", "enum", "minimum", "maximum",
+			"nullable", "format", "description", "default", "x-kubernetes-preserve-unknown-fields":
+		default:
+			*errs = append(*errs, "UNSUPPORTED schema keyword "+k+" at "+path)
+		}
+	}
+	if v == nil {
+		if n, _ := sc["nullable"].(bool); !n {
+			*errs = append(*errs, path+": null")
+		}
+		return
+	}
+	typ, _ := sc["type"].(string)
+	switch typ {
+	case "object":
+		m, ok := v.(map[string]interface{})
+		if !ok {
+			*errs = append(*errs, path+": must be an object")
+			return
+		}
+		props, _ := sc["properties"].(map[string]interface{})
+		if req, ok := sc["required"].([]interface{}); ok {
+			for _, r := range req {
+				if x, present := m[r.(string)]; !present || x == nil {
+					*errs = append(*errs, path+"."+r.(string)+": required")
+				}
+			}
+		}
+		for k, x := range m {
+			if x == nil {
+				continue // pruned
+			}
+			if ps, ok := props[k].(map[string]interface{}); ok {
+				schemaCheck(ps, x, path+"."+k, errs)
+			} else if ap, ok := sc["additionalProperties"].(map[string]interface{}); ok {
+				schemaCheck(ap, x, path+"."+k, errs)
+			}
+			// unknown fields are pruned, not rejected
+		}
+	case "array":
+		a, ok := v.([]interface{})
+		if !ok {
+			*errs = append(*errs, path+": must be an array")
+			return
+		}
+		if it, ok := sc["items"].(map[string]interface{}); ok {
+			for i, x := range a {
+				schemaCheck(it, x, fmt.Sprintf("%s[%d]", path, i), errs)
+			}
+		}
+	case "string":
+		str, ok := v.(string)
+		if !ok {
+			*errs = append(*errs, path+": must be a string")
+			return
+		}
+		if p, ok := sc["pattern"].(string); ok {
+			if re, err := regexp.Compile(p); err != nil || !re.MatchString(str) {
+				*errs = append(*errs, path+": pattern")
+			}
+		}
+		if en, ok := sc["enum"].([]interface{}); ok {
+			found := false
+			for _, e := range en {
+				if e == str {
+					found = true
+				}
+			}
+			if !found {
+				*errs = append(*errs, path+": enum")
+			}
+		}
+	case "integer":
+		n, ok := v.(json.Number)
+		if !ok {
+			*errs = append(*errs, path+": must be an integer")
+			return
+		}
+		i, err := n.Int64()
+		if err != nil {
+			*errs = append(*errs, path+": must be an integer")
+			return
+		}
+		if mn, ok := sc["minimum"].(float64); ok && float64(i) < mn {
+			*errs = append(*errs, path+": minimum")
+		}
+		if mx, ok := sc["maximum"].(float64); ok && float64(i) > mx {
+			*errs = append(*errs, path+": maximum")
+		}
+	case "number":
+		if _, ok := v.(json.Number); !ok {
+			*errs = append(*errs, path+": must be a number")
+		}
+	case "boolean":
+		if _, ok := v.(bool); !ok {
+			*errs = append(*errs, path+": must be a boolean")
+		}
+	case "":
+		// no type: anything (metadata, x-kubernetes-preserve-unknown-fields)
+	default:
+		*errs = append(*errs, "UNSUPPORTED schema type "+typ+" at "+path)
+	}
+}
+
+func generic(obj interface{}) (interface{}, error) {
+	b, err := json.Marshal(obj)
+	if err != nil {
+		return nil, err
+	}
+	dec := json.NewDecoder(strings.NewReader(string(b)))
+	dec.UseNumber()
+	var g interface{}
+	err = dec.Decode(&g)
+	return g, err
+}
+
+// crdAdmitted: the object, as the JSON a client would send, validates against the published schema.
+func crdAdmitted(kind string, obj interface{}) (bool, []string) {
+	schemaOnce.Do(loadSchemas)
+	if schemaErr != nil {
+		fmt.Fprintf(os.Stderr, "c17: %v\n", schemaErr)
+		os.Exit(5)
+	}
+	g, err := generic(obj)
+	if err != nil {
+		return false, []string{err.Error()}
+	}
+	if m, ok := g.(map[string]interface{}); ok {
+		delete(m, "status")
+		delete(m, "metadata")
+	}
+	var errs []string
+	schemaCheck(schemas[kind], g, kind, &errs)
+	for _, e := range errs {
+		if strings.HasPrefix(e, "UNSUPPORTED") {
+			fmt.Fprintf(os.Stderr, "c17: %s\n", e)
+			os.Exit(5)
+		}
+	}
+	return len(errs) == 0, errs
+}
+
+// The API server's built-in validation of the watched core kinds, transcribed (k8s.io/kubernetes
+// is not available offline): only what decides admissibility of the objects generated here.
+func ingressAdmitted(ing *networking.Ingress) bool {
+	backendOK := func(b *networking.IngressBackend) bool {
+		if (b.Service != nil) == (b.Resource != nil) {
+			return false // exactly one of service / resource
+		}
+		if b.Service != nil {
+			if b.Service.Name == "" {
+				return false
+			}
+			if (b.Service.Port.Name != "") == (b.Service.Port.Number != 0) {
+				return false // exactly one of port name / number
+			}
+		}
+		if b.Resource != nil && (b.Resource.Kind == "" || b.Resource.Name == "") {
+			return false
+		}
+		return true
+	}
+	if ing.Spec.DefaultBackend == nil && len(ing.Spec.Rules) == 0 {
+		return false
+	}
+	if ing.Spec.DefaultBackend != nil && !backendOK(ing.Spec.DefaultBackend) {
+		return false
+	}
+	for _, r := range ing.Spec.Rules {
+		if strings.ContainsAny(r.Host, " /:") || strings.HasPrefix(r.Host, ".") {
+			return false
+		}
+		if r.HTTP == nil {
+			continue
+		}
+		if len(r.HTTP.Paths) == 0 {
+			return false
+		}
+		for _, p := range r.HTTP.Paths {
+			if p.PathType == nil || !backendOK(&p.Backend) {
+				return false
+			}
+			switch *p.PathType {
+			case networking.PathTypeExact, networking.PathTypePrefix:
+				if !strings.HasPrefix(p.Path, "/") || strings.Contains(p.Path, "//") || strings.Contains(p.Path, "/./") || strings.Contains(p.Path, "/../") {
+					return false
+				}
+			case networking.PathTypeImplementationSpecific:
+				if p.Path != "" && !strings.HasPrefix(p.Path, "/") {
+					return false
+				}
+			default:
+				return false
+			}
+		}
+	}
+	for _, t := range ing.Spec.TLS {
+		for _, h := range t.Hosts {
+			if h == "" {
+				return false
+			}
+		}
+	}
+	return true
+}
+
+func serviceAdmitted(s *api_v1.Service) bool {
+	if s.Spec.Type == api_v1.ServiceTypeExternalName {
+		return s.Spec.ExternalName != ""
+	}
+	if len(s.Spec.Ports) == 0 {
+		return false
+	}
+	names := map[string]bool{}
+	for _, p := range s.Spec.Ports {
+		if p.Port < 1 || p.Port > 65535 {
+			return false
+		}
+		if len(s.Spec.Ports) > 1 && p.Name == "" {
+			return false
+		}
+		if names[p.Name] {
+			return false
+		}
+		names[p.Name] = true
+	}
+	return true
+}
+
+func sliceAdmitted(e *discovery_v1.EndpointSlice) bool {
+	if e.AddressType == "" {
+		return false
+	}
+	for _, ep := range e.Endpoints {
+		if len(ep.Addresses) < 1 {
+			return false
+		}
+	}
+	names := map[string]bool{}
+	for _, p := range e.Ports {
+		n := ""
+		if p.Name != nil {
+			n = *p.Name
+		}
+		if names[n] {
+			return false
+		}
+		names[n] = true
+	}
+	return true
+}
+
+func secretAdmitted(s *api_v1.Secret) bool {
+	if s.Type == api_v1.SecretTypeTLS {
+		_, a := s.Data["tls.crt"]
+		_, b := s.Data["tls.key"]
+		return a && b
+	}
+	return true
+}
+
+func admitted(obj interface{}) bool {
+	switch x := obj.(type) {
+	case *conf_v1.VirtualServer:
+		ok, _ := crdAdmitted("VirtualServer", x)
+		return ok
+	case *conf_v1.VirtualServerRoute:
+		ok, _ := crdAdmitted("VirtualServerRoute", x)
+		return ok
+	case *conf_v1.TransportServer:
+		ok, _ := crdAdmitted("TransportServer", x)
+		return ok
+	case *conf_v1.Policy:
+		ok, _ := crdAdmitted("Policy", x)
+		return ok
+	case *conf_v1.GlobalConfiguration:
+		ok, _ := crdAdmitted("GlobalConfiguration", x)
+		return ok
+	case *networking.Ingress:
+		return ingressAdmitted(x)
+	case *api_v1.Service:
+		return serviceAdmitted(x)
+	case *discovery_v1.EndpointSlice:
+		return sliceAdmitted(x)
+	case *api_v1.Secret:
+		return secretAdmitted(x)
+	}
+	return false
+}
+
+// ---------------------------------------------------------------- S: random stream
+
+// string pools by JSON field name; the first entry is a valid value and is chosen most often
+var strPool = map[string][]string{
+	"host":               {host1, host2, "*.example.com", "", "UPPER.example.com"},
+	"path":               {"/r", "/", "/r/s", "~ ^/re", "= /exact", "", "/{x}", "/a b"},
+	"service":            {"svc-a", "svc-ext", "missing", ""},
+	"backup":             {"", "svc-ext", "svc-a"},
+	"secret":             {"tls-secret", "", "missing", "ca-secret", "jwk-secret", "htpasswd-secret"},
+	"clientCertSecret":   {"ca-secret", "", "tls-secret", "missing"},
+	"tlsSecret":          {"tls-secret", "", "missing"},
+	"trustedCertSecret":  {"ca-secret", "", "missing"},
+	"clientSecret":       {"oidc-secret", "apikey-secret", "", "missing"},
+	"crlFileName":        {"", "crl.pem"},
+	"protocol":           {"TCP", "UDP", "HTTP", "TLS_PASSTHROUGH", ""},
+	"lb-method":          {"", "round_robin", "least_conn", "ip_hash", "hash $request_uri consistent", "random two least_conn", "bogus"},
+	"loadBalancingMethod": {"", "round_robin", "least_conn", "hash $remote_addr", "random two", "bogus"},
+	"type":               {"", "http", "grpc", "text/plain"},
+	"url":                {"http://www.example.com", "${scheme}://${host}/x", "", "ftp://x"},
+	"body":               {"ok", "${request_uri}", "", "\"quoted\""},
+	"rate":               {"10r/s", "1r/m", "bogus", ""},
+	"key":                {"${binary_remote_addr}", "${request_uri}", "bad key", ""},
+	"zoneSize":           {"10M", "1k", "x", ""},
+	"logLevel":           {"", "error", "bogus"},
+	"realm":              {"realm", "", "a \"b\""},
+	"token":              {"", "$http_token", "$cookie_t", "bad"},
+	"jwksURI":            {"", "https://idp.example.com/jwks", "bad"},
+	"keyCache":           {"", "1h", "x"},
+	"authEndpoint":       {"https://idp.example.com/auth", "", "bad"},
+	"tokenEndpoint":      {"https://idp.example.com/token", ""},
+	"endSessionEndpoint": {"", "https://idp.example.com/logout"},
+	"postLogoutRedirectURI": {"", "/_logout"},
+	"redirectURI":        {"", "/_codexch"},
+	"clientID":           {"client", ""},
+	"scope":              {"", "openid+profile", "bogus"},
+	"claim":              {"sub", "a.b", ""},
+	"match":              {"gold", ""},
+	"header":             {"", "x-h", "bad header"},
+	"cookie":             {"", "c", "bad-cookie"},
+	"argument":           {"", "a"},
+	"variable":           {"", "$request_method", "$bogus"},
+	"value":              {"v", "!v", "", "a b"},
+	"statusMatch":        {"", "200", "! 500", "2xx"},
+	"route":              {"", "default/z-vsr", "z-vsr", "a/b/c"},
+	"dos":                {"", "default/dos"},
+	"logDest":            {"stderr", "syslog:server=127.0.0.1:514", "bad", ""},
+	"apPolicy":           {"", "default/dataguard"},
+	"apBundle":           {"", "bundle.tgz"},
+	"apLogConf":          {"", "default/logconf"},
+	"apLogBundle":        {"", "log.tgz"},
+	"verifyClient":       {"on", "off", "optional", "optional_no_ca", "bogus", ""},
+	"sslName":            {"", "srv.example.com"},
+	"serverName":         {"", ""},
+	"ciphers":            {"", "DEFAULT"},
+	"protocols":          {"", "TLSv1.2"},
+	"send":               {"", "ping", "\\x0"},
+	"expect":             {"", "pong", "~ ^x", "~ ("},
+	"ipv4":               {"", "127.0.0.1", "bad"},
+	"ipv6":               {"", "::1", "bad"},
+	"http":               {"", "http-l", "missing"},
+	"https":              {"", "https-l", "missing"},
+	"basedOn":            {"", "scheme", "x-forwarded-proto", "bogus"},
+	"rewritePath":        {"", "/x", "/$1"},
+	"grpcService":        {"", "svc.Health"},
+	"samesite":           {"", "strict", "bogus"},
+	"domain":             {"", ".example.com"},
+	"expires":            {"", "1h", "max"},
+	"next-upstream":      {"", "error timeout", "bogus"},
+	"server-snippets":    {"", "# s"},
+	"location-snippets":  {"", "# l"},
+	"http-snippets":      {"", "# h"},
+	"serverSnippets":     {"", "# s"},
+	"streamSnippets":     {"", "# t"},
+	"ingressClassName":   {"nginx"},
+	"internalRoute":      {""},
+	"cluster-issuer":     {"issuer", ""},
+	"issuer":             {"", "issuer"},
+	"suppliedIn":         {""},
+	"name":               {"name1", "", "bad name"},
+	"namespace":          {"", "default", "Bad"},
+	"SuppliedIn.header":  {"X-API-Key", "", "bad header"},
+	"SuppliedIn.query":   {"apikey", "", "q\""},
+	"AccessControl.allow": {"10.0.0.0/8", "1.2.3.4", "bad"},
+	"AccessControl.deny": {"10.1.0.0/16", "bad"},
+	"ProxyResponseHeaders.hide":   {"x-hide", "bad header"},
+	"ProxyResponseHeaders.pass":   {"x-pass", "bad header"},
+	"ProxyResponseHeaders.ignore": {"Expires", "Bogus"},
+	"OIDC.authExtraArgs": {"a=b", "bad arg"},
+	"TransportServerSpec.host":    {"", host2, "bad host"},
+	"JWTAuth.secret":     {"jwk-secret", "", "missing"},
+	"BasicAuth.secret":   {"htpasswd-secret", "", "missing"},
+	"HealthCheck.path":   {"/healthz", "", "bad path"},
+	"UpstreamBuffers.size": {"8k", "", "x"},
+	"SessionCookie.path": {"", "/", "bad path"},
+}
+
+func isTimeField(n string) bool {
+	for _, k := range []string{"timeout", "interval", "jitter", "slow-start", "keepalive-time", "failTimeout", "fail-timeout", "duration", "renew-before", "accessTokenEnable"} {
+		if strings.Contains(n, k) {
+			return true
+		}
+	}
+	return false
+}
+
+// gen carries the PRNG and the noise level of one object: with probability noise/100 a value
+// is drawn from the whole pool (valid and invalid), otherwise the pool's first (valid) entry.
+type gen struct {
+	r     *vh.Rng
+	noise int
+}
+
+func newGen(r *vh.Rng) *gen {
+	switch x := r.Intn(100); {
+	case x < 45:
+		return &gen{r, 0}
+	case x < 75:
+		return &gen{r, 8}
+	default:
+		return &gen{r, 40}
+	}
+}
+
+func (g *gen) noisy() bool { return g.noise > 0 && g.r.Intn(100) < g.noise }
+
+func pickOf[T any](g *gen, pool []T) T {
+	if g.noisy() {
+		return vh.Pick(g.r, pool)
+	}
+	return pool[0]
+}
+
+func pickStr(g *gen, parent, name string) string {
+	if p, ok := strPool[parent+"."+name]; ok {
+		return pickOf(g, p)
+	}
+	if p, ok := strPool[name]; ok {
+		return pickOf(g, p)
+	}
+	if isTimeField(name) {
+		return pickOf(g, []string{"", "5s", "1m", "bogus", "0"})
+	}
+	if strings.Contains(name, "size") || strings.Contains(name, "Size") {
+		return pickOf(g, []string{"", "8k", "1m", "x"})
+	}
+	return pickOf(g, []string{"", "v", "x-1"})
+}
+
+func pickInt(g *gen, name string) int64 {
+	switch name {
+	case "port", "backupPort":
+		return pickOf(g, []int64{80, 8080, 443, 0, 65535, 9000})
+	case "code":
+		return pickOf(g, []int64{0, 200, 301, 302, 404, 503, 999})
+	case "codes":
+		return pickOf(g, []int64{502, 404, 200, 600})
+	case "weight":
+		return pickOf(g, []int64{50, 0, 100, 30})
+	case "rejectCode":
+		return pickOf(g, []int64{503, 429, 200})
+	case "grpcStatus":
+		return pickOf(g, []int64{12, 0, 99})
+	}
+	return pickOf(g, []int64{1, 0, 2, 10, -1})
+}
+
+// fill sets every field of a CRD spec from the pools: pointers are nil with probability 1/3,
+// slices have 0-2 elements (nil or empty when 0), maps are nil / empty / one entry.
+func fill(v reflect.Value, g *gen, parent, name string, depth int) {
+	r := g.r
+	switch v.Kind() {
+	case reflect.Ptr:
+		if r.Chance(1, 3) || depth > 7 {
+			return
+		}
+		v.Set(reflect.New(v.Type().Elem()))
+		fill(v.Elem(), g, parent, name, depth+1)
+	case reflect.Struct:
+		t := v.Type()
+		for i := 0; i < t.NumField(); i++ {
+			f := t.Field(i)
+			if f.Name == "TypeMeta" || f.Name == "ObjectMeta" || f.Name == "Status" || f.PkgPath != "" {
+				continue
+			}
+			n := strings.Split(f.Tag.Get("json"), ",")[0]
+			if n == "" {
+				n = name // inlined struct
+			}
+			fill(v.Field(i), g, t.Name(), n, depth+1)
+		}
+	case reflect.Slice:
+		n := 0
+		switch {
+		case depth > 7:
+		case r.Chance(3, 10):
+			if r.Bool() {
+				v.Set(reflect.MakeSlice(v.Type(), 0, 0))
+			}
+			return
+		case r.Chance(4, 7):
+			n = 1
+		default:
+			n = 2
+		}
+		s := reflect.MakeSlice(v.Type(), n, n)
+		for i := 0; i < n; i++ {
+			e := s.Index(i)
+			if e.Kind() == reflect.Ptr { // list items are never null
+				e.Set(reflect.New(e.Type().Elem()))
+				fill(e.Elem(), g, parent, name, depth+1)
+			} else {
+				fill(e, g, parent, name, depth+1)
+			}
+		}
+		v.Set(s)
+	case reflect.Map:
+		if r.Chance(1, 2) {
+			return
+		}
+		m := reflect.MakeMap(v.Type())
+		if r.Bool() && v.Type().Key().Kind() == reflect.String && v.Type().Elem().Kind() == reflect.String {
+			m.SetMapIndex(reflect.ValueOf("app").Convert(v.Type().Key()), reflect.ValueOf("a").Convert(v.Type().Elem()))
+		}
+		v.Set(m)
+	case reflect.String:
+		v.SetString(pickStr(g, parent, name))
+	case reflect.Bool:
+		v.SetBool(r.Bool())
+	case reflect.Int, reflect.Int32, reflect.Int64, reflect.Int16, reflect.Int8:
+		v.SetInt(pickInt(g, name))
+	case reflect.Uint16, reflect.Uint32, reflect.Uint64, reflect.Uint, reflect.Uint8:
+		x := pickInt(g, name)
+		if x < 0 {
+			x = 0
+		}
+		v.SetUint(uint64(x))
+	}
+}
+
+// mostly-valid post-processing: unique upstream names, actions that reference them, weights
+// that add up, distinct route paths
+func fixAction(a *conf_v1.Action, ups []string, g *gen) {
+	r := g.r
+	if a == nil || g.noisy() {
+		return
+	}
+	if len(ups) == 0 {
+		ups = []string{"u0"}
+	}
+	u := vh.Pick(r, ups)
+	if a.Proxy != nil {
+		a.Proxy.Upstream = u
+	}
+	if !g.noisy() { // keep exactly one of the four most of the time
+		switch {
+		case a.Proxy != nil:
+			a.Pass, a.Redirect, a.Return = "", nil, nil
+		case a.Return != nil:
+			a.Pass, a.Redirect = "", nil
+			if a.Return.Body == "" {
+				a.Return.Body = "ok"
+			}
+		case a.Redirect != nil:
+			a.Pass = ""
+			if a.Redirect.URL == "" {
+				a.Redirect.URL = "http://www.example.com"
+			}
+		default:
+			a.Pass = u
+		}
+	} else if r.Bool() {
+		a.Pass = u
+	}
+}
+
+func fixSplits(sp []conf_v1.Split, ups []string, g *gen) {
+	for i := range sp {
+		if sp[i].Action == nil && !g.noisy() {
+			sp[i].Action = &conf_v1.Action{}
+		}
+		fixAction(sp[i].Action, ups, g)
+	}
+	if len(sp) == 2 && !g.noisy() {
+		sp[0].Weight, sp[1].Weight = 40, 60
+	}
+}
+
+func fixRoutes(routes []conf_v1.Route, ups []string, g *gen, prefix string) {
+	for i := range routes {
+		rt := &routes[i]
+		if !g.noisy() {
+			rt.Path = fmt.Sprintf("%s%d", prefix, i)
+		}
+		fixAction(rt.Action, ups, g)
+		fixSplits(rt.Splits, ups, g)
+		for j := range rt.Matches {
+			m := &rt.Matches[j]
+			fixAction(m.Action, ups, g)
+			fixSplits(m.Splits, ups, g)
+			if !g.noisy() {
+				if len(m.Conditions) == 0 {
+					m.Conditions = []conf_v1.Condition{{}}
+				}
+				for k := range m.Conditions {
+					m.Conditions[k] = conf_v1.Condition{Header: "x-h", Value: "v"}
+				}
+				if m.Action != nil {
+					m.Splits = nil
+				} else if len(m.Splits) != 2 {
+					m.Splits = nil
+					m.Action = &conf_v1.Action{Pass: pickUp(ups)}
+				}
+			}
+		}
+		for j := range rt.ErrorPages {
+			e := &rt.ErrorPages[j]
+			if !g.noisy() {
+				if len(e.Codes) == 0 {
+					e.Codes = []int{502}
+				}
+				if e.Return != nil {
+					e.Redirect = nil
+					if e.Return.Body == "" {
+						e.Return.Body = "sorry"
+					}
+					for k := range e.Return.Headers {
+						e.Return.Headers[k] = conf_v1.Header{Name: "x-e", Value: "1"}
+					}
+				} else if e.Redirect == nil {
+					e.Redirect = &conf_v1.ErrorPageRedirect{ActionRedirect: conf_v1.ActionRedirect{URL: "http://err.example.com"}}
+				} else if e.Redirect.URL == "" {
+					e.Redirect.URL = "http://err.example.com"
+				}
+			}
+		}
+		for j := range rt.Policies {
+			if !g.noisy() {
+				rt.Policies[j] = conf_v1.PolicyReference{Name: fmt.Sprintf("z-pol%d", j)}
+			}
+		}
+		if !g.noisy() { // exactly one of action / splits / route
+			switch {
+			case rt.Action != nil:
+				rt.Splits, rt.Route = nil, ""
+			case len(rt.Splits) == 2:
+				rt.Route = ""
+			case rt.Route != "":
+				rt.Splits = nil
+				if len(rt.Matches) > 0 {
+					rt.Matches = nil
+				}
+			default:
+				rt.Splits = nil
+				rt.Action = &conf_v1.Action{Pass: pickUp(ups)}
+			}
+		}
+	}
+}
+
+func pickUp(ups []string) string {
+	if len(ups) == 0 {
+		return "u0"
+	}
+	return ups[0]
+}
+
+func fixUpstreams(us []conf_v1.Upstream, g *gen) []string {
+	var names []string
+	for i := range us {
+		u := &us[i]
+		if !g.noisy() {
+			u.Name = fmt.Sprintf("u%d", i)
+			if u.Port == 0 {
+				u.Port = 80
+			}
+			if (u.Backup == "") != (u.BackupPort == nil) {
+				u.Backup, u.BackupPort = "", nil
+			}
+			if u.Subselector != nil {
+				u.UseClusterIP = false
+			}
+			if u.HealthCheck != nil {
+				if u.HealthCheck.Persistent {
+					u.HealthCheck.Mandatory = true
+				}
+				for k := range u.HealthCheck.Headers {
+					u.HealthCheck.Headers[k] = conf_v1.Header{Name: "x-hc", Value: "1"}
+				}
+				if u.Type != "grpc" {
+					u.HealthCheck.GRPCStatus, u.HealthCheck.GRPCService = nil, ""
+				}
+			}
+			if u.Queue != nil && u.Queue.Size <= 0 {
+				u.Queue.Size = 10
+			}
+		}
+		names = append(names, u.Name)
+	}
+	return names
+}
+
+func randomIngress(r *vh.Rng) *networking.Ingress {
+	cls := "nginx"
+	ing := &networking.Ingress{ObjectMeta: meta("z-new", 9), Spec: networking.IngressSpec{IngressClassName: &cls}}
+	pts := []networking.PathType{networking.PathTypePrefix, networking.PathTypeExact, networking.PathTypeImplementationSpecific}
+	backend := func() networking.IngressBackend {
+		switch {
+		case r.Chance(7, 10):
+			b := networking.IngressBackend{Service: &networking.IngressServiceBackend{Name: vh.Pick(r, []string{"svc-a", "svc-b", "svc-ext", "missing"})}}
+			if r.Chance(3, 4) {
+				b.Service.Port.Number = vh.Pick(r, []int32{80, 8080, 443})
+			} else {
+				b.Service.Port.Name = vh.Pick(r, []string{"http", "nope"})
+			}
+			return b
+		case r.Chance(2, 3):
+			g := "k8s.example.com"
+			return networking.IngressBackend{Resource: &api_v1.TypedLocalObjectReference{APIGroup: &g, Kind: "StorageBucket", Name: "b"}}
+		}
+		return networking.IngressBackend{}
+	}
+	if r.Chance(1, 3) {
+		b := backend()
+		ing.Spec.DefaultBackend = &b
+	}
+	nr := r.Intn(3)
+	if r.Chance(1, 2) {
+		nr = 1
+	}
+	for i := 0; i < nr; i++ {
+		rule := networking.IngressRule{Host: vh.Pick(r, []string{host1, host2, "", "*.example.com", "h3.example.com"})}
+		if r.Chance(4, 5) {
+			http := &networking.HTTPIngressRuleValue{}
+			np := 1 + r.Intn(2)
+			if r.Chance(1, 10) {
+				np = 0
+			}
+			for j := 0; j < np; j++ {
+				p := networking.HTTPIngressPath{Backend: backend(),
+					Path: vh.Pick(r, []string{"/", "/p", "/p/q", "", "/a{1,3}", "/x;y", "/~re", "/p.*", "/\"q", "/a\\"})}
+				if r.Chance(9, 10) {
+					pt := vh.Pick(r, pts)
+					p.PathType = &pt
+				}
+				http.Paths = append(http.Paths, p)
+			}
+			rule.HTTP = http
+		}
+		ing.Spec.Rules = append(ing.Spec.Rules, rule)
+	}
+	if r.Chance(1, 3) {
+		ing.Spec.TLS = []networking.IngressTLS{{Hosts: []string{host1}, SecretName: vh.Pick(r, []string{"tls-secret", "missing", ""})}}
+	}
+	annPool := [][2]string{
+		{"nginx.org/mergeable-ingress-type", "master"}, {"nginx.org/mergeable-ingress-type", "minion"}, {"nginx.org/mergeable-ingress-type", "x"},
+		{"nginx.org/lb-method", "round_robin"}, {"nginx.org/lb-method", "bogus"}, {"nginx.com/health-checks", "true"},
+		{"nginx.com/health-checks-mandatory", "true"}, {"nginx.com/health-checks-mandatory-queue", "10"}, {"nginx.com/slow-start", "10s"},
+		{"nginx.org/server-tokens", "off"}, {"nginx.org/server-snippets", "# s"}, {"nginx.org/location-snippets", "# l"},
+		{"nginx.org/proxy-connect-timeout", "10s"}, {"nginx.org/proxy-read-timeout", "x"}, {"nginx.org/proxy-hide-headers", "a,b"},
+		{"nginx.org/proxy-set-headers", "X-A: b,X-C"}, {"nginx.org/client-max-body-size", "1m"}, {"nginx.org/redirect-to-https", "true"},
+		{"nginx.org/hsts", "true"}, {"nginx.org/hsts-max-age", "100"}, {"nginx.org/proxy-buffers", "4 8k"}, {"nginx.org/proxy-buffer-size", "8k"},
+		{"nginx.org/basic-auth-secret", "htpasswd-secret"}, {"nginx.org/basic-auth-secret", "missing"}, {"nginx.org/basic-auth-realm", "r"},
+		{"nginx.com/jwt-key", "jwk-secret"}, {"nginx.com/jwt-key", "missing"}, {"nginx.com/jwt-realm", "r"}, {"nginx.com/jwt-token", "$cookie_t"},
+		{"nginx.com/jwt-login-url", "https://login.example.com"}, {"nginx.org/listen-ports", "8080,9090"}, {"nginx.org/listen-ports-ssl", "8443"},
+		{"nginx.org/keepalive", "8"}, {"nginx.org/max-fails", "2"}, {"nginx.org/max-conns", "10"}, {"nginx.org/fail-timeout", "5s"},
+		{"nginx.org/websocket-services", "svc-a"}, {"nginx.org/ssl-services", "svc-a"}, {"nginx.org/grpc-services", "svc-a"},
+		{"nginx.org/rewrites", "serviceName=svc-a rewrite=/x"}, {"nginx.com/sticky-cookie-services", "serviceName=svc-a srv_id expires=1h"},
+		{"nginx.org/path-regex", "case_sensitive"}, {"nginx.org/path-regex", "exact"}, {"nginx.org/use-cluster-ip", "true"},
+		{"nginx.org/limit-req-rate", "10r/s"}, {"nginx.org/limit-req-key", "${binary_remote_addr}"}, {"nginx.org/limit-req-zone-size", "10m"},
+		{"nginx.org/limit-req-burst", "5"}, {"nginx.org/limit-req-scale", "true"}, {"nginx.org/http2", "true"},
+		{"appprotect.f5.com/app-protect-enable", "True"}, {"appprotect.f5.com/app-protect-policy", "default/dataguard"},
+		{"appprotect.f5.com/app-protect-security-log-enable", "True"}, {"appprotect.f5.com/app-protect-security-log", "default/logconf"},
+		{"appprotectdos.f5.com/app-protect-dos-resource", "default/dos"}, {"nginx.org/proxy-pass-headers", "x"}, {"nginx.org/ssl-redirect", "false"},
+	}
+	na := r.Intn(5)
+	if r.Chance(1, 3) {
+		na = 0
+	}
+	if na > 0 {
+		ing.Annotations = map[string]string{}
+		for i := 0; i < na; i++ {
+			a := vh.Pick(r, annPool)
+			ing.Annotations[a[0]] = a[1]
+		}
+	}
+	if r.Chance(1, 6) {
+		ing.Labels = map[string]string{"acme.cert-manager.io/http01-solver": "true"}
+	}
+	return ing
+}
+
+func randomService(r *vh.Rng) *api_v1.Service {
+	s := &api_v1.Service{ObjectMeta: meta(vh.Pick(r, []string{"svc-a", "svc-b", "svc-ext"}), 120)}
+	if r.Chance(1, 4) {
+		s.Spec.Type = api_v1.ServiceTypeExternalName
+		s.Spec.ExternalName = vh.Pick(r, []string{"ext.example.com", ""})
+	} else {
+		s.Spec.ClusterIP = vh.Pick(r, []string{"10.0.0.9", "None", "fd00::1", ""})
+		if r.Chance(2, 3) {
+			s.Spec.Selector = map[string]string{"app": "a"}
+		}
+	}
+	for i, n := 0, r.Intn(3); i < n; i++ {
+		p := api_v1.ServicePort{Port: vh.Pick(r, []int32{80, 8080, 443, 0})}
+		if n > 1 || r.Bool() {
+			p.Name = fmt.Sprintf("p%d", i)
+			if i == 0 && r.Bool() {
+				p.Name = "http"
+			}
+		}
+		switch r.Intn(3) {
+		case 0:
+			p.TargetPort = intstr.FromInt(8080)
+		case 1:
+			p.TargetPort = intstr.FromString(vh.Pick(r, []string{"http", "nope"}))
+		}
+		s.Spec.Ports = append(s.Spec.Ports, p)
+	}
+	return s
+}
+
+func randomSlice(r *vh.Rng) *discovery_v1.EndpointSlice {
+	e := &discovery_v1.EndpointSlice{ObjectMeta: meta(vh.Pick(r, []string{"svc-a-1", "svc-a-2", "other-1"}), 121), AddressType: discovery_v1.AddressTypeIPv4}
+	if r.Chance(9, 10) {
+		e.Labels = map[string]string{"kubernetes.io/service-name": vh.Pick(r, []string{"svc-a", "svc-b", "nginx-ingress"})}
+	}
+	if r.Chance(1, 10) {
+		e.AddressType = discovery_v1.AddressTypeIPv6
+	}
+	for i, n := 0, r.Intn(3); i < n; i++ {
+		ep := discovery_v1.Endpoint{}
+		for j, m := 0, r.Intn(3); j < m; j++ {
+			ep.Addresses = append(ep.Addresses, vh.Pick(r, []string{"10.1.0.1", "10.1.0.3", "fd00::5"}))
+		}
+		if r.Chance(3, 4) {
+			b := r.Chance(3, 4)
+			ep.Conditions.Ready = &b
+		}
+		if r.Chance(1, 2) {
+			ep.TargetRef = &api_v1.ObjectReference{Kind: "Pod", Namespace: "default", Name: vh.Pick(r, []string{"pod-a", "gone"})}
+		}
+		e.Endpoints = append(e.Endpoints, ep)
+	}
+	for i, n := 0, r.Intn(3); i < n; i++ {
+		p := discovery_v1.EndpointPort{}
+		if r.Chance(3, 4) {
+			x := vh.Pick(r, []int32{8080, 80, 443})
+			p.Port = &x
+		}
+		if r.Chance(3, 4) {
+			nm := fmt.Sprintf("p%d", i)
+			p.Name = &nm
+		}
+		e.Ports = append(e.Ports, p)
+	}
+	return e
+}
+
+func randomSecret(r *vh.Rng) *api_v1.Secret {
+	crt, key := selfSigned()
+	name := vh.Pick(r, []string{"tls-secret", "ca-secret", "jwk-secret", "htpasswd-secret", "oidc-secret", "apikey-secret"})
+	s := &api_v1.Secret{ObjectMeta: meta(name, 122)}
+	s.Type = vh.Pick(r, []api_v1.SecretType{api_v1.SecretTypeTLS, "nginx.org/ca", "nginx.org/jwk", "nginx.org/htpasswd", "nginx.org/oidc", "nginx.org/apikey", api_v1.SecretTypeOpaque, ""})
+	if r.Chance(1, 6) {
+		return s // Data nil
+	}
+	s.Data = map[string][]byte{}
+	for _, k := range []string{"tls.crt", "tls.key", "ca.crt", "ca.crl", "jwk", "htpasswd", "client-secret", "client1"} {
+		if r.Chance(1, 2) {
+			switch {
+			case k == "tls.crt" || k == "ca.crt":
+				s.Data[k] = vh.Pick(r, [][]byte{crt, []byte("garbage"), nil})
+			case k == "tls.key":
+				s.Data[k] = vh.Pick(r, [][]byte{key, []byte("garbage"), nil})
+			default:
+				s.Data[k] = vh.Pick(r, [][]byte{[]byte("value"), nil, []byte("a:b")})
+			}
+		}
+	}
+	return s
+}
+
+func randomObject(kind string, r *vh.Rng) interface{} {
+	g := newGen(r)
+	switch kind {
+	case "Ingress":
+		return randomIngress(r)
+	case "VirtualServer":
+		vs := &conf_v1.VirtualServer{ObjectMeta: meta("z-vs", 9)}
+		fill(reflect.ValueOf(&vs.Spec).Elem(), g, "VirtualServerSpec", "spec", 0)
+		vs.Spec.IngressClass = "nginx"
+		if !g.noisy() {
+			vs.Spec.Host = host1
+			for j := range vs.Spec.Policies {
+				vs.Spec.Policies[j] = conf_v1.PolicyReference{Name: fmt.Sprintf("z-pol%d", j)}
+			}
+			if r.Chance(3, 4) {
+				vs.Spec.Dos = ""
+			}
+			if vs.Spec.TLS != nil && r.Chance(2, 3) {
+				vs.Spec.TLS.CertManager = nil
+			}
+			if vs.Spec.TLS != nil && vs.Spec.TLS.Redirect != nil && vs.Spec.TLS.Redirect.Code != nil {
+				*vs.Spec.TLS.Redirect.Code = 301
+			}
+		}
+		if !g.noisy() {
+			if len(vs.Spec.Upstreams) == 0 && len(vs.Spec.Routes) > 0 {
+				vs.Spec.Upstreams = []conf_v1.Upstream{{Service: "svc-a"}}
+			}
+			if r.Chance(4, 5) {
+				vs.Spec.ExternalDNS.Enable = false
+			}
+		}
+		ups := fixUpstreams(vs.Spec.Upstreams, g)
+		fixRoutes(vs.Spec.Routes, ups, g, "/r")
+		return vs
+	case "VirtualServerRoute":
+		v := &conf_v1.VirtualServerRoute{ObjectMeta: meta("z-vsr", 9)}
+		fill(reflect.ValueOf(&v.Spec).Elem(), g, "VirtualServerRouteSpec", "spec", 0)
+		v.Spec.IngressClass = "nginx"
+		if !g.noisy() {
+			v.Spec.Host = "vs.example.com"
+		}
+		if !g.noisy() && len(v.Spec.Upstreams) == 0 && len(v.Spec.Subroutes) > 0 {
+			v.Spec.Upstreams = []conf_v1.Upstream{{Service: "svc-a"}}
+		}
+		ups := fixUpstreams(v.Spec.Upstreams, g)
+		fixRoutes(v.Spec.Subroutes, ups, g, "/sub/r")
+		for i := range v.Spec.Subroutes {
+			if !g.noisy() && v.Spec.Subroutes[i].Route != "" {
+				v.Spec.Subroutes[i].Route = ""
+				v.Spec.Subroutes[i].Action = &conf_v1.Action{Pass: pickUp(ups)}
+			}
+		}
+		return v
+	case "TransportServer":
+		ts := &conf_v1.TransportServer{ObjectMeta: meta("z-ts", 9)}
+		fill(reflect.ValueOf(&ts.Spec).Elem(), g, "TransportServerSpec", "spec", 0)
+		ts.Spec.IngressClass = "nginx"
+		if !g.noisy() {
+			ts.Spec.Listener = vh.Pick(r, []conf_v1.TransportServerListener{{Name: "tcp-l", Protocol: "TCP"}, {Name: "tcp-l", Protocol: "TCP"}, {Name: "udp-l", Protocol: "UDP"},
+				{Name: conf_v1.TLSPassthroughListenerName, Protocol: conf_v1.TLSPassthroughListenerProtocol}})
+			if ts.Spec.Listener.Protocol == conf_v1.TLSPassthroughListenerProtocol {
+				ts.Spec.Host, ts.Spec.TLS = host2, nil
+			}
+			if ts.Spec.Listener.Protocol != "UDP" && ts.Spec.UpstreamParameters != nil {
+				ts.Spec.UpstreamParameters.UDPRequests, ts.Spec.UpstreamParameters.UDPResponses = nil, nil
+			}
+			if len(ts.Spec.Upstreams) == 0 {
+				ts.Spec.Upstreams = []conf_v1.TransportServerUpstream{{Service: "svc-a"}}
+			}
+			if ts.Spec.Action == nil && r.Chance(9, 10) {
+				ts.Spec.Action = &conf_v1.TransportServerAction{}
+			}
+		}
+		for i := range ts.Spec.Upstreams {
+			if !g.noisy() {
+				ts.Spec.Upstreams[i].Name = fmt.Sprintf("u%d", i)
+				if ts.Spec.Upstreams[i].Port == 0 {
+					ts.Spec.Upstreams[i].Port = 80
+				}
+				if (ts.Spec.Upstreams[i].Backup == "") != (ts.Spec.Upstreams[i].BackupPort == nil) {
+					ts.Spec.Upstreams[i].Backup, ts.Spec.Upstreams[i].BackupPort = "", nil
+				}
+				if hc := ts.Spec.Upstreams[i].HealthCheck; hc != nil && hc.Match != nil {
+					hc.Match.Send, hc.Match.Expect = "ping", "pong"
+				}
+			}
+		}
+		if ts.Spec.Action != nil && !g.noisy() {
+			ts.Spec.Action.Pass = "u0"
+		}
+		if ts.Spec.TLS != nil && ts.Spec.Host == "" && r.Bool() {
+			ts.Spec.TLS.Secret = "" // a tls block without a secret name is admitted by the schema
+		}
+		return ts
+	case "Policy":
+		p := &conf_v1.Policy{ObjectMeta: meta("z-pol", 9)}
+		fill(reflect.ValueOf(&p.Spec).Elem(), g, "PolicySpec", "spec", 0)
+		p.Spec.IngressClass = "nginx"
+		if !g.noisy() { // keep one sub-spec
+			keep := r.Intn(9)
+			sp := reflect.ValueOf(&p.Spec).Elem()
+			k := 0
+			for i := 0; i < sp.NumField(); i++ {
+				if sp.Field(i).Kind() == reflect.Ptr {
+					if k != keep {
+						sp.Field(i).Set(reflect.Zero(sp.Field(i).Type()))
+					} else if sp.Field(i).IsNil() {
+						sp.Field(i).Set(reflect.New(sp.Field(i).Type().Elem()))
+						fill(sp.Field(i).Elem(), g, sp.Field(i).Type().Elem().Name(), "spec", 1)
+					}
+					k++
+				}
+			}
+			if a := p.Spec.AccessControl; a != nil {
+				if a.Allow == nil && a.Deny == nil {
+					a.Allow = []string{"10.0.0.0/8"}
+				} else if a.Allow != nil && a.Deny != nil {
+					a.Deny = nil
+				}
+			}
+			if k := p.Spec.APIKey; k != nil && k.SuppliedIn != nil && k.SuppliedIn.Header == nil && k.SuppliedIn.Query == nil {
+				k.SuppliedIn.Header = []string{"X-API-Key"}
+			}
+			if e := p.Spec.EgressMTLS; e != nil && e.VerifyServer && e.TrustedCertSecret == "" {
+				e.TrustedCertSecret = "ca-secret"
+			}
+			if o := p.Spec.OIDC; o != nil {
+				o.ClientSecret = "oidc-secret"
+				if o.EndSessionEndpoint == "" {
+					o.PostLogoutRedirectURI = ""
+				}
+			}
+			if a := p.Spec.APIKey; a != nil {
+				a.ClientSecret = "apikey-secret"
+			}
+		}
+		return p
+	case "GlobalConfiguration":
+		gc := gcObject(nil)
+		fill(reflect.ValueOf(&gc.Spec).Elem(), g, "GlobalConfigurationSpec", "spec", 0)
+		for i := range gc.Spec.Listeners {
+			if !g.noisy() {
+				gc.Spec.Listeners[i].Name = []string{"tcp-l", "udp-l"}[i%2]
+				gc.Spec.Listeners[i].Protocol = []string{"TCP", "UDP"}[i%2]
+				gc.Spec.Listeners[i].Port = 9000 + i
+				gc.Spec.Listeners[i].Ssl = false
+			}
+		}
+		return gc
+	case "Service":
+		return randomService(r)
+	case "EndpointSlice":
+		return randomSlice(r)
+	case "Secret":
+		return randomSecret(r)
+	}
+	return nil
+}
+
+var randomKinds = []string{"Ingress", "Ingress", "Ingress", "VirtualServer", "VirtualServer", "VirtualServer", "VirtualServerRoute",
+	"TransportServer", "TransportServer", "Policy", "Policy", "GlobalConfiguration", "Service", "EndpointSlice", "Secret"}
+
+// priorFor: a populated state that references what the object under test provides
+func priorFor(c *k8s.VerifC17, viaSync bool, withGC bool) {
+	if withGC {
+		store(c, gcObject(gcListeners()), viaSync)
+	}
+	vs := olderVS(false, []conf_v1.PolicyReference{{Name: "z-pol"}})
+	vs.Spec.Routes = append(vs.Spec.Routes, conf_v1.Route{Path: "/sub", Route: "default/z-vsr"})
+	vs.Spec.Host = "vs.example.com"
+	vs.Spec.Listener = &conf_v1.VirtualServerListener{HTTP: "http-l", HTTPS: "https-l"}
+	store(c, vs, viaSync)
+	store(c, olderTS(), viaSync)
+	m, mi := ctxMaster(), ctxMinion()
+	m.Spec.Rules[0].Host, mi.Spec.Rules[0].Host = "mm.example.com", "mm.example.com"
+	m.Spec.TLS = []networking.IngressTLS{{Hosts: []string{"mm.example.com"}, SecretName: "tls-secret"}}
+	m.Annotations["nginx.org/basic-auth-secret"] = "htpasswd-secret"
+	store(c, m, viaSync)
+	store(c, mi, viaSync)
+}
+
+func runObject(kind string, obj interface{}, f int, ctx int, panics *[]PanicInfo) (accepted bool, why string) {
+	setErr := func(err error) bool {
+		if err != nil {
+			why = err.Error()
+			if len(why) > 160 {
+				why = why[:160]
+			}
+		}
+		return err == nil
+	}
+	note := func(name, msg, site string) {
+		*panics = append(*panics, PanicInfo{Combo: fmt.Sprintf("flags=%d ctx=%d", f, ctx), Stage: name, Msg: msg, Site: site})
+	}
+	for pass := 0; pass < 2; pass++ {
+		viaSync := pass == 1
+		c := newCtl(f)
+		fillSecrets(c)
+		if ctx > 0 {
+			if m, s := guard(func() { priorFor(c, viaSync, ctx == 2) }); m != "" {
+				note("prior-state", m, s)
+				continue
+			}
+		}
+		o := deepCopy(obj)
+		if viaSync {
+			if m, s := guard(func() { _ = c.Sync(o, false); _ = c.Sync(o, true) }); m != "" {
+				note("sync", m, s)
+			}
+			continue
+		}
+		switch x := o.(type) {
+		case *networking.Ingress:
+			if m, s := guard(func() { accepted = c.ValidateIngress(x.DeepCopy()) == 0 }); m != "" {
+				note("validate", m, s)
+			}
+			if m, s := guard(func() {
+				ch, pr := c.Configuration().AddOrUpdateIngress(x)
+				c.ExtendAll()
+				c.ProcessChanges(ch)
+				c.ProcessProblems(pr)
+				ch, pr = c.Configuration().DeleteIngress("default/z-new")
+				c.ProcessChanges(ch)
+				c.ProcessProblems(pr)
+			}); m != "" {
+				note("store", m, s)
+			}
+		case *conf_v1.VirtualServer:
+			if m, s := guard(func() { accepted = setErr(c.VSValidator().ValidateVirtualServer(x.DeepCopy())) }); m != "" {
+				note("validate", m, s)
+			}
+			if m, s := guard(func() {
+				ch, pr := c.Configuration().AddOrUpdateVirtualServer(x)
+				c.ExtendAll()
+				c.ProcessChanges(ch)
+				c.ProcessProblems(pr)
+				ch, pr = c.Configuration().DeleteVirtualServer("default/z-vs")
+				c.ProcessChanges(ch)
+				c.ProcessProblems(pr)
+			}); m != "" {
+				note("store", m, s)
+			}
+		case *conf_v1.VirtualServerRoute:
+			if m, s := guard(func() { accepted = setErr(c.VSValidator().ValidateVirtualServerRoute(x.DeepCopy())) }); m != "" {
+				note("validate", m, s)
+			}
+			if m, s := guard(func() {
+				ch, pr := c.Configuration().AddOrUpdateVirtualServerRoute(x)
+				c.ExtendAll()
+				c.ProcessChanges(ch)
+				c.ProcessProblems(pr)
+				ch, pr = c.Configuration().DeleteVirtualServerRoute("default/z-vsr")
+				c.ProcessChanges(ch)
+				c.ProcessProblems(pr)
+			}); m != "" {
+				note("store", m, s)
+			}
+		case *conf_v1.TransportServer:
+			if m, s := guard(func() { accepted = setErr(c.TSValidator().ValidateTransportServer(x.DeepCopy())) }); m != "" {
+				note("validate", m, s)
+			}
+			if m, s := guard(func() {
+				ch, pr := c.Configuration().AddOrUpdateTransportServer(x)
+				c.ExtendAll()
+				c.ProcessChanges(ch)
+				c.ProcessProblems(pr)
+				ch, pr = c.Configuration().DeleteTransportServer("default/z-ts")
+				c.ProcessChanges(ch)
+				c.ProcessProblems(pr)
+			}); m != "" {
+				note("store", m, s)
+			}
+		case *conf_v1.Policy:
+			if m, s := guard(func() { accepted = setErr(c.ValidatePolicy(x.DeepCopy())) }); m != "" {
+				note("validate", m, s)
+			}
+			_ = c.AddPolicy(x)
+			if m, s := guard(func() {
+				vs := olderVS(false, []conf_v1.PolicyReference{{Name: "z-pol"}})
+				vs.Name = "pol-vs"
+				vs.Spec.Host = "pol.example.com"
+				c.Configuration().AddOrUpdateVirtualServer(vs)
+				c.ExtendAll()
+			}); m != "" {
+				note("extend", m, s)
+			}
+		case *conf_v1.GlobalConfiguration:
+			if m, s := guard(func() { accepted = setErr(c.GCValidator().ValidateGlobalConfiguration(x.DeepCopy())) }); m != "" {
+				note("validate", m, s)
+			}
+			if m, s := guard(func() {
+				ch, pr, _ := c.Configuration().AddOrUpdateGlobalConfiguration(x)
+				c.ExtendAll()
+				_ = c.ProcessGCChanges(ch)
+				c.ProcessProblems(pr)
+				ch, pr = c.Configuration().DeleteGlobalConfiguration()
+				_ = c.ProcessGCChanges(ch)
+				c.ProcessProblems(pr)
+			}); m != "" {
+				note("store", m, s)
+			}
+		case *api_v1.Secret:
+			if m, s := guard(func() { c.AddSecret(x); c.ExtendAll() }); m != "" {
+				note("store", m, s)
+			}
+		case *api_v1.Service:
+			_ = c.AddService(x)
+			if m, s := guard(func() { c.ExtendAll() }); m != "" {
+				note("extend", m, s)
+			}
+		case *discovery_v1.EndpointSlice:
+			_ = c.AddSlice(x)
+			if m, s := guard(func() { c.ExtendAll() }); m != "" {
+				note("extend", m, s)
+			}
+		}
+	}
+	return accepted, why
+}
+
+func typedOfKind(kind string) interface{} {
+	switch kind {
+	case "Ingress":
+		return &networking.Ingress{}
+	case "VirtualServer":
+		return &conf_v1.VirtualServer{}
+	case "VirtualServerRoute":
+		return &conf_v1.VirtualServerRoute{}
+	case "TransportServer":
+		return &conf_v1.TransportServer{}
+	case "Policy":
+		return &conf_v1.Policy{}
+	case "GlobalConfiguration":
+		return &conf_v1.GlobalConfiguration{}
+	case "Service":
+		return &api_v1.Service{}
+	case "EndpointSlice":
+		return &discovery_v1.EndpointSlice{}
+	case "Secret":
+		return &api_v1.Secret{}
+	}
+	return nil
+}
+
+func finishRandom(cs Case, obj interface{}) Case {
+	adm := admitted(obj)
+	cs.Admitted = &adm
+	b, err := json.Marshal(obj)
+	if err != nil {
+		cs.Error = err.Error()
+		return cs
+	}
+	cs.Object = b
+	acc, why := runObject(cs.Kind, obj, cs.Flags, cs.Ctx, &cs.Panics)
+	cs.Accepted = &acc
+	cs.Why = why
+	if len(cs.Panics) > 4 {
+		cs.Panics = cs.Panics[:4]
+	}
+	return cs
+}
+
+func runRandom(id int, r *vh.Rng) Case {
+	cs := Case{Fam: "rnd", ID: id, Kind: vh.Pick(r, randomKinds), Flags: r.Intn(128), Ctx: r.Intn(3)}
+	var obj interface{}
+	if m, s := guard(func() { obj = randomObject(cs.Kind, r) }); m != "" {
+		cs.Error = "generator panic: " + m + " at " + s
+		return cs
+	}
+	return finishRandom(cs, obj)
+}
+
+func replayRandom(c Case) Case {
+	cs := Case{Fam: "rnd", ID: c.ID, Kind: c.Kind, Flags: c.Flags, Ctx: c.Ctx}
+	obj := typedOfKind(c.Kind)
+	if obj == nil {
+		cs.Error = "unknown kind " + c.Kind
+		return cs
+	}
+	if err := json.Unmarshal(c.Object, obj); err != nil {
+		cs.Error = err.Error()
+		return cs
+	}
+	return finishRandom(cs, obj)
+}
